@@ -225,8 +225,17 @@ func checkCacheAdd(c *core.Ctx) {
 		removes := false
 		ast.Inspect(fd.Body, func(n ast.Node) bool {
 			if ds, ok := n.(*ast.DeferStmt); ok {
+				// the deferred function: a literal, or a named function of the package
+				var body *ast.BlockStmt
 				if fl, ok := ds.Call.Fun.(*ast.FuncLit); ok {
-					ast.Inspect(fl.Body, func(m ast.Node) bool {
+					body = fl.Body
+				} else if f := core.Callee(info, ds.Call); f != nil && f.Pkg() == fp.Types {
+					if hd := declOf(fp, f); hd != nil {
+						body = hd.Body
+					}
+				}
+				if body != nil {
+					ast.Inspect(body, func(m ast.Node) bool {
 						if is, ok := m.(*ast.IfStmt); ok {
 							if be, ok := is.Cond.(*ast.BinaryExpr); ok && be.Op == token.NEQ {
 								ast.Inspect(is.Body, func(k ast.Node) bool {
